@@ -138,6 +138,10 @@ def all_threads_blocked_untimed(pid):
             return False
         if not sc or sc[0] in ('running', '-1'): return False
         nr = int(sc[0]); args = [int(x, 16) for x in sc[1:7]]
+        if nr == 35:
+            # raw nanosleep(2): only the sanitizer runtime's own background thread sleeps this way (glibc's
+            # sleep/usleep/nanosleep all enter the kernel as clock_nanosleep, 230) -> not a thread of the program
+            continue
         if nr == 202:    # futex(uaddr, op, val, timeout,...)
             op = args[1] & 0x7f
             if op in (0, 9, 6, 11, 12) and args[3] != 0: return False   # wait with timeout
